@@ -1120,9 +1120,10 @@ impl ParserListener for Screen {
         let mut mode_list = Vec::from(modes);
         if private {
             mode_list = modes.iter().map(|m| m << 5).collect::<Vec<_>>();
-            if mode_list.iter().any(|m| *m == DECSCNM) {
-                self.dirty.extend(0..self.lines);
-            }
+        }
+        // Whichever way the mode number was spelled.
+        if mode_list.iter().any(|m| *m == DECSCNM) {
+            self.dirty.extend(0..self.lines);
         }
 
         self.mode.extend(mode_list.iter());
@@ -1181,9 +1182,10 @@ impl ParserListener for Screen {
         // private ones.
         if is_private {
             mode_list = modes.iter().map(|m| m << 5).collect::<Vec<_>>();
-            if mode_list.iter().any(|m| *m == DECSCNM) {
-                self.dirty.extend(0..self.lines);
-            }
+        }
+        // Whichever way the mode number was spelled.
+        if mode_list.iter().any(|m| *m == DECSCNM) {
+            self.dirty.extend(0..self.lines);
         }
 
         // retain mode mode_list difference
